@@ -524,7 +524,7 @@ func (g *gen) query(d int) string {
 func (g *gen) program(d int) string {
 	s := ""
 	if g.r.Intn(12) == 0 {
-		s += `module {a: 1, "b": [true, null, "x", {}], if: -1};` + "\n"
+		s += g.pick(`module {a: 1, "b": [true, null, "x", {}], if: 2};`, `module {};`, `module {"version": "1.0"};`) + "\n"
 	}
 	for g.r.Intn(10) == 0 {
 		s += g.pick(`import "m" as m;`, `import "d" as $d {search: "./"};`, `include "i";`, `include "j" {a: [1]};`) + "\n"
